@@ -5,6 +5,7 @@
 -/
 import FordModel.AccessImpl
 import FordModel.Lemmas.Access
+import FordModel.AccessSpec
 namespace Ford.Access
 
 /-- the loops "last recognised access word wins": a recognised word at the very end decides -/
@@ -54,6 +55,57 @@ theorem implsFrom_const (g : Bool) (p : Perm) : ∀ xs : List XStmt,
       simp only [implsFrom] at hk
       rw [permAfter_not_bare p (keyed g r) (h r (List.mem_cons_self ..))] at hk
       exact ih ht k hk
+
+/-- every short-form body of the unit is in `modprocedures` under its name -/
+theorem implsFrom_mem (g : Bool) (n : Str) : ∀ (xs : List XStmt) (p : Perm),
+    XStmt.impl n ∈ xs → ∃ k ∈ implsFrom g p xs, k.name = n := by
+  intro xs
+  induction xs with
+  | nil => intro _ h; cases h
+  | cons x t ih =>
+    intro p h
+    cases x with
+    | impl m =>
+      simp only [List.mem_cons, XStmt.impl.injEq] at h
+      rcases h with h | h
+      · exact ⟨⟨m, p⟩, by simp [implsFrom], h.symm⟩
+      · obtain ⟨k, hk, hn⟩ := ih p h
+        exact ⟨k, by simp [implsFrom, hk], hn⟩
+    | stmt r =>
+      simp only [List.mem_cons, reduceCtorEq, false_or] at h
+      obtain ⟨k, hk, hn⟩ := ih (permAfter p (keyed g r)) h
+      exact ⟨k, by simpa [implsFrom] using hk, hn⟩
+
+/-- one access word for `n` among the attribute statements: the application step ends on it, whatever the entity had -/
+theorem applyAttrs_one (n : Str) (a : List (Str × Attr)) (p q : Perm)
+    (hstmt : (entriesFor n a).filterMap accessWord = [q]) (hprot : Attr.acc .prot ∉ entriesFor n a) :
+    applyAttrs applyWords n p a = q := by
+  rw [applyAttrs_eq_declPerm]
+  exact declPerm_one applyWords (by decide) (by decide) _ _ q hstmt hprot
+
+/-- what Fortran says about an entity without attributes of its own that one access statement names -/
+theorem fortranAccess_one (stmts : List Stmt) (n : Str) (q : Perm)
+    (hstmt : (entriesFor n (stmtEntries stmts)).filterMap accessWord = [q])
+    (hprot : Attr.acc .prot ∉ entriesFor n (stmtEntries stmts)) :
+    fortranAccess stmts [] n = q := by
+  have h1 : stmtAccess stmts n = some q := by
+    rw [stmtAccess_eq, explicitOf_eq_head, hstmt]; rfl
+  have h2 : hasProtected stmts [] n = false := by
+    simp only [hasProtected, List.contains_nil, Bool.false_or]
+    cases hc : (stmtEntries stmts).contains (n, Attr.acc .prot) with
+    | false => rfl
+    | true =>
+      exfalso; apply hprot
+      have hm : (n, Attr.acc .prot) ∈ stmtEntries stmts := by simpa using hc
+      simp only [entriesFor, List.mem_map, List.mem_filter]
+      exact ⟨_, ⟨hm, by simp⟩, rfl⟩
+  have hq : q ≠ .prot := by
+    have hm : q ∈ (entriesFor n (stmtEntries stmts)).filterMap accessWord := by rw [hstmt]; simp
+    obtain ⟨a, _, ha⟩ := List.mem_filterMap.1 hm
+    exact accessWord_ne_prot ha
+  unfold fortranAccess
+  simp only [explicitOf, List.findSome?_nil, Option.orElse_none, h1, Option.getD_some, h2]
+  cases q <;> simp_all
 
 theorem xstmts_map_stmt (rs : List RStmt) : xstmts (rs.map XStmt.stmt) = rs := by
   induction rs with
